@@ -23,6 +23,7 @@ RULE += " Sessions take portfolio_id from {default, 'master', 'p-1'}; the 'switc
 RULE += " Equity curve reworked by the caller and read again, caller's weights unchanged (as C08); a quarter of the dynamic universes are a user-defined Universe subclass."
 RULE += " Before run() a session is, in turn, left alone / its clock walked to the first close / its signals' asset lists refreshed twice / its empty account asked for equity. After the repeat-period session the FIRST session's equity curve and allocation rows are read again and must be what they were."
 RULE += ' Round 11: markets with one-session crashes / spikes (sessions whose equity goes below zero are followed to the end); both sizing keywords passed.'
+RULE += ' Round 13: the equity curve is also read at every rebalance DURING the run (as draw-down control would) and must hold one point per close so far; a sampling hook that is never reached is counted, not alarmed.'
 ASSUMPTIONS = ['at least one close after burn-in (an empty equity curve is outside the quantifier)',
                'start time-of-day 00:00-14:30, end 23:59 as documented']
 ALPHAS = ('fixed', 'single', 'topn_mom', 'sma_trend', 'inv_vol', 'mom_sign', 'switch')
